@@ -786,7 +786,7 @@ static int vi_yank(int r1, int o1, int r2, int o2, int lnmode)
 	free(region);
 	xrow = r1;
 	xoff = lnmode ? xoff : o1;
-	return 0;
+	return VC_COL;
 }
 
 static int vi_delete(int r1, int o1, int r2, int o2, int lnmode)
